@@ -233,6 +233,11 @@ class FakeArr:
     def __array__(self, dtype=None, copy=None):
         return np.array(self._a, dtype=dtype, copy=True)
 
+    def __getattr__(self, k):          # ndim, size, nbytes, ... as asdf's lazily loaded arrays offer them
+        if k.startswith('__'):
+            raise AttributeError(k)
+        return getattr(self._a, k)
+
 
 class FakeAf:
     def __init__(self, node, uri):
@@ -249,6 +254,15 @@ class FakeAf:
     def close(self):
         self.closed = True
 
+    def keys(self):
+        return self.tree.keys()
+
+    def __contains__(self, k):
+        return k in self.tree
+
+    def __iter__(self):
+        return iter(self.tree)
+
     def __enter__(self):
         return self
 
@@ -262,6 +276,7 @@ class FakeAsdfModule:
     def __init__(self):
         self.store = {}
         self.opens = 0
+        self.enabled = True
 
     def open(self, fn, *a, **kw):
         p = os.path.abspath(str(fn))
@@ -283,11 +298,32 @@ class Env:
     def __init__(self, max_slabs=4):
         self.root = tempfile.mkdtemp(prefix='vfcat', dir='/dev/shm' if os.path.isdir('/dev/shm') else None)
         atexit.register(shutil.rmtree, self.root, True)
+        import asdf as _asdf
+        self.fake = FakeAsdfModule()
+        # The double is installed on asdf.open itself, before the catalog module is imported, so that any reference the
+        # module takes to it at import time (functools.partial, from-imports, aliases) is served as well; paths that
+        # are not in the store go to the real asdf.open.
+        if not hasattr(_asdf, '_vf_real_open'):
+            _asdf._vf_real_open = _asdf.open
+            _asdf._vf_stores = []
+
+            def _open(fn, *a, **kw):
+                try:
+                    p = os.path.abspath(os.fspath(fn))
+                except TypeError:
+                    return _asdf._vf_real_open(fn, *a, **kw)
+                for st in _asdf._vf_stores:
+                    if st.enabled and p in st.store:
+                        return st.open(p)
+                return _asdf._vf_real_open(fn, *a, **kw)
+            _asdf.open = _open
+        _asdf._vf_stores.append(self.fake)
         from abacusnbody.data import compaso_halo_catalog as chc
         self.chc = chc
-        self.fake = FakeAsdfModule()
-        chc.asdf = self.fake
-        chc.gc = NoGC
+        try:
+            chc.gc = NoGC           # speed only (4 x 75 ms per load otherwise); harmless if the module stops using gc
+        except Exception:
+            pass
         self._made = set()
 
     def tree(self, slab_ids, lc=False):
@@ -295,9 +331,10 @@ class Env:
         d = os.path.join(self.root, 'T' + '_'.join(map(str, slab_ids)))
         if key not in self._made:
             for si in slab_ids:
-                for rel in (f'{SIM}/halos/{ZDIR}/halo_info/halo_info_{si:03d}.asdf',
+                for rel in [f'{SIM}/halos/{ZDIR}/halo_info/halo_info_{si:03d}.asdf',
                             f'cleaning/{SIM}/{ZDIR}/cleaned_halo_info/cleaned_halo_info_{si:03d}.asdf',
-                            f'cleaning/{SIM}/{ZDIR}/cleaned_rvpid/cleaned_rvpid_{si:03d}.asdf'):
+                            f'cleaning/{SIM}/{ZDIR}/cleaned_rvpid/cleaned_rvpid_{si:03d}.asdf'] + [
+                            f'{SIM}/halos/{ZDIR}/halo_{k}_{X}/halo_{k}_{X}_{si:03d}.asdf' for k in ('rv', 'pid') for X in 'AB']:
                     p = os.path.join(d, rel)
                     os.makedirs(os.path.dirname(p), exist_ok=True)
                     open(p, 'w').close()
